@@ -224,20 +224,47 @@ Proof.
     rewrite xorb_negb_eqb. destruct (negb _); reflexivity.
 Qed.
 
+(* buint from_i64 / from_i128: `match uN::try_from(int) { Ok(int) => Self::from_uN(int), _ => None }` *)
+Lemma conv_U_from_i64 dbg w lg n int : 0 <= lg -> w = 2 ^ lg ->
+  forall fuel, (64 <= fuel)%nat ->
+  ConvGen.U_from_i64 w (Z.of_nat n) fuel int =
+  match NumConv.U_from_iN dbg 64 w n int with Ret r => Done r | Panic => Panicked end.
+Proof.
+  intros Hlg Hw fuel Hf. unfold ConvGen.U_from_i64, NumConv.U_from_iN. cbv zeta.
+  destruct (NumConv.uN_try_from_iN int) as [int'|]; [|reflexivity].
+  rewrite bind_done_r. apply (conv_U_from_u64 dbg w lg); assumption.
+Qed.
+
+Lemma conv_U_from_i128 dbg w lg n int : 0 <= lg -> w = 2 ^ lg ->
+  forall fuel, (128 <= fuel)%nat ->
+  ConvGen.U_from_i128 w (Z.of_nat n) fuel int =
+  match NumConv.U_from_iN dbg 128 w n int with Ret r => Done r | Panic => Panicked end.
+Proof.
+  intros Hlg Hw fuel Hf. unfold ConvGen.U_from_i128, NumConv.U_from_iN. cbv zeta.
+  destruct (NumConv.uN_try_from_iN int) as [int'|]; [|reflexivity].
+  rewrite bind_done_r. apply (conv_U_from_u128 dbg w lg); assumption.
+Qed.
+
 Theorem conv_C19_from_match_model dbg w lg : 0 <= lg -> w = 2 ^ lg ->
   forall n int,
   (forall fuel, (64 <= fuel)%nat -> ConvGen.U_from_u64 w (Z.of_nat n) fuel int =
      match NumConv.U_from_uN dbg 64 w n int with Ret r => Done r | Panic => Panicked end) /\
   (forall fuel, (128 <= fuel)%nat -> ConvGen.U_from_u128 w (Z.of_nat n) fuel int =
      match NumConv.U_from_uN dbg 128 w n int with Ret r => Done r | Panic => Panicked end) /\
+  (forall fuel, (64 <= fuel)%nat -> ConvGen.U_from_i64 w (Z.of_nat n) fuel int =
+     match NumConv.U_from_iN dbg 64 w n int with Ret r => Done r | Panic => Panicked end) /\
+  (forall fuel, (128 <= fuel)%nat -> ConvGen.U_from_i128 w (Z.of_nat n) fuel int =
+     match NumConv.U_from_iN dbg 128 w n int with Ret r => Done r | Panic => Panicked end) /\
   (forall pb fuel, 0 < pb -> (Z.to_nat pb <= fuel)%nat -> ConvGen.I_from_uint w (Z.of_nat n) fuel pb int =
      match NumConv.I_from_uN dbg pb w n int with Ret r => Done r | Panic => Panicked end) /\
   (forall pb fuel, 0 < pb -> (Z.to_nat pb <= fuel)%nat -> ConvGen.I_from_int w (Z.of_nat n) fuel pb int =
      match NumConv.I_from_iN dbg pb w n int with Ret r => Done r | Panic => Panicked end).
 Proof.
-  intros Hlg Hw n int. split; [|split; [|split]]; intros.
+  intros Hlg Hw n int. split; [|split; [|split; [|split; [|split]]]]; intros.
   - apply (conv_U_from_u64 dbg w lg); assumption.
   - apply (conv_U_from_u128 dbg w lg); assumption.
+  - apply (conv_U_from_i64 dbg w lg); assumption.
+  - apply (conv_U_from_i128 dbg w lg); assumption.
   - apply (conv_I_from_uint dbg w lg); assumption.
   - apply (conv_I_from_int dbg w lg); assumption.
 Qed.
